@@ -550,6 +550,13 @@ pub fn gen_row(g: &mut G<'_>, cols: &[ColSpec], bin: bool, last: bool) -> RowPro
         let form = *g.pick(&[RowForm::WriteRow, RowForm::WriteRowRef, RowForm::Cols, RowForm::Cols]);
         return RowProg { cells, form, offers: vec![] };
     }
+    if bin && last && g.allow_offers && g.chance(1, 25) {
+        // a row the shim gives up before it has written anything: its first value is refused and
+        // there is no fallback; the resultset is finished without it
+        if let Some(v) = gen_refusable(g, cols.first()) {
+            return RowProg { cells: vec![], form: RowForm::ColsOpen, offers: vec![(0, v)] };
+        }
+    }
     let cells: Vec<Val> = cols.iter().map(|c| gen_cell(g, c, bin)).collect();
     let form = match g.weighted(&[3, 2, 3, if last && !cols.is_empty() { 2 } else { 0 }, if cols.len() >= 2 { 1 } else { 0 }]) {
         0 => RowForm::WriteRow,
@@ -651,18 +658,38 @@ pub fn gen_program(g: &mut G<'_>, bin: bool, max_rows: usize) -> Program {
         2 => 2,
         _ => g.usize_in(3, 4),
     };
+    // sometimes all resultsets of the program show prefixes of one column list (a shim that
+    // keeps `all: Vec<Column>` and answers with `&all[..k]`)
+    let shared: Option<Vec<ColSpec>> = if chain > 0 && g.chance(1, 4) {
+        let n = g.usize_in(2, 6);
+        Some(gen_cols(g, n, bin))
+    } else {
+        None
+    };
+    let set_of = |g: &mut G<'_>, end: SetEnd| -> Step {
+        match &shared {
+            Some(all) => {
+                let k = g.usize_in(1, all.len());
+                let cols = all[..k].to_vec();
+                let nrows = g.usize_in(0, 2.min(max_rows.max(1)));
+                let rows = (0..nrows).map(|i| gen_row(g, &cols, bin, i + 1 == nrows)).collect();
+                Step::Set { cols, rows, end }
+            }
+            None => gen_set(g, bin, end, max_rows),
+        }
+    };
     for _ in 0..chain {
         if g.coin() {
             steps.push(Step::CompleteOne { rows: g.u64_biased(), id: g.u64_biased() });
         } else {
-            steps.push(gen_set(g, bin, SetEnd::FinishOne, max_rows));
+            steps.push(set_of(g, SetEnd::FinishOne));
         }
     }
     // terminal
     let t = g.weighted(&[4, 5, 2, 2, 2, if chain > 0 { 2 } else { 0 }, if chain > 0 { 2 } else { 0 }]);
     match t {
         0 => steps.push(Step::Completed { rows: g.u64_biased(), id: g.u64_biased() }),
-        1 => steps.push(gen_set(g, bin, SetEnd::Finish, max_rows)),
+        1 => steps.push(set_of(g, SetEnd::Finish)),
         2 => steps.push(Step::Error { kind: gen_error_kind(g), msg: gen_error_msg(g) }),
         3 => {
             let end = SetEnd::FinishError { kind: gen_error_kind(g), msg: gen_error_msg(g) };
